@@ -154,7 +154,7 @@ theorem leaf_simulation : Simulation Leaf.ops LeafRel where
   next l c h := by
     obtain ⟨h1, h2⟩ := leaf_next l c h
     exact ⟨l.next.2, by simp [Leaf.ops, ← h1], h2⟩
-  advance k l c h := by
+  advance k l c h _ := by
     obtain ⟨h1, h2⟩ := leaf_advance l c k h
     exact ⟨(l.advance k).2, by simp [Leaf.ops, ← h1], h2⟩
 
@@ -171,7 +171,7 @@ theorem empty_refines : Refines emptyOps () [] := by
   · intro _ c h; subst h; unfold Cursor.WF StrictSorted; simp [Cursor.xs, start]
   · intro _ c h hc; subst h; simp at hc
   · intro _ c h; subst h; exact ⟨(), rfl, by simp [Cursor.next, start]⟩
-  · intro k _ c h; subst h; exact ⟨(), rfl, by simp [Cursor.advance, Cursor.seek, Cursor.cur, start]⟩
+  · intro k _ c h _; subst h; exact ⟨(), rfl, by simp [Cursor.advance, Cursor.seek, Cursor.cur, start]⟩
 
 /-! ## transporting a refinement along an embedding of state types -/
 
@@ -179,6 +179,7 @@ theorem refinesAt_embed {τ σ : Type} {opsT : IterOps τ} {opsS : IterOps σ} (
     (hnext : ∀ t, opsS.next (emb t) = liftRes emb (opsT.next t))
     (hadv : ∀ k t, opsS.advance k (emb t) = liftRes emb (opsT.advance k t))
     (hval : ∀ t, opsS.value (emb t) = opsT.value t)
+    (hdom : ∀ k, opsS.dom k → opsT.dom k)
     {t : τ} {c : Cursor} (h : RefinesAt opsT t c) : RefinesAt opsS (emb t) c := by
   refine ⟨fun s c => ∃ t, s = emb t ∧ RefinesAt opsT t c, ?_, t, rfl, h⟩
   constructor
@@ -187,8 +188,8 @@ theorem refinesAt_embed {τ σ : Type} {opsT : IterOps τ} {opsS : IterOps σ} (
   · rintro _ c ⟨t, rfl, ht⟩
     obtain ⟨t', h1, h2⟩ := ht.next
     exact ⟨emb t', by rw [hnext, h1]; rfl, fun hb => ⟨t', rfl, h2 hb⟩⟩
-  · rintro k _ c ⟨t, rfl, ht⟩
-    obtain ⟨t', h1, h2⟩ := ht.advance k
+  · rintro k _ c ⟨t, rfl, ht⟩ hk
+    obtain ⟨t', h1, h2⟩ := ht.advance k (hdom k hk)
     exact ⟨emb t', by rw [hadv, h1]; rfl, fun hb => ⟨t', rfl, h2 hb⟩⟩
 
 /-! ## key range -/
@@ -204,7 +205,7 @@ theorem rangeList_sorted {b e : Nat} {xs : List Nat} (h : StrictSorted xs) : Str
 
 /-- the relation kept by `keyRange`: `C` is the cursor over the clamped list, `c` the child's cursor -/
 def RangeRel (st : RangeState σ) (C : Cursor) : Prop :=
-  ∃ c : Cursor, RefinesAt o st.it c ∧ C.WF ∧ C.xs = rangeList st.b st.e c.xs ∧
+  ∃ c : Cursor, RefinesAt o st.it c ∧ o.dom st.b ∧ C.WF ∧ C.xs = rangeList st.b st.e c.xs ∧
     ((st.started = false ∧ c.cur = none ∧ C.cur = none) ∨
      (st.started = true ∧ ∃ v, c.cur = some v ∧ C.cur = some v))
 
@@ -266,21 +267,21 @@ theorem range_finish {st : RangeState σ} {C c c' : Cursor} {it' : σ} {t : Nat}
       intro ht; rw [this] at ht; simp at ht
 
 theorem range_simulation : Simulation (Range.ops o) (RangeRel o) where
-  wf _ _ h := by obtain ⟨_, _, hw, _⟩ := h; exact hw
+  wf _ _ h := by obtain ⟨_, _, _, hw, _⟩ := h; exact hw
   value st C h hC := by
-    obtain ⟨c, hr, _, _, hcase⟩ := h
+    obtain ⟨c, hr, _, _, _, hcase⟩ := h
     rcases hcase with ⟨_, _, hCn⟩ | ⟨_, v, hcv, hCv⟩
     · rw [hCn] at hC; simp at hC
     · show o.value st.it = C.cur
       rw [hr.value (by rw [hcv]; rfl), hcv, hCv]
   next st C h := by
-    obtain ⟨c, hr, hCw, hxs, hcase⟩ := h
+    obtain ⟨c, hr, hdb, hCw, hxs, hcase⟩ := h
     have hcw := hr.wf
     obtain ⟨hnb, hns⟩ := Cursor.next_eq_advance_lo hCw
     rcases hcase with ⟨hst, hcn, hCn⟩ | ⟨hst, v, hcv, hCv⟩
     · -- first call: `Advance(begin)` on the child; the spec `next` is `advance 0`, and also `advance b`
       have hlo : C.lo = 0 := by simp [Cursor.lo, hCn]
-      obtain ⟨it', h1, h2⟩ := hr.advance st.b
+      obtain ⟨it', h1, h2⟩ := hr.advance st.b hdb
       have hcA := Cursor.advance_spec hcw st.b
       have hfin := range_finish o (st := st) (C := C) (c := c) (c' := (c.advance st.b).2) (it' := it')
         (t := st.b) (c.advance st.b).1 hCw hxs hcw (Nat.le_refl _)
@@ -328,7 +329,7 @@ theorem range_simulation : Simulation (Range.ops o) (RangeRel o) where
         have htb : (C.advance st.b).1 = true := by rw [hsame.1]; exact ht
         obtain ⟨e1, e2, e3, e4, x, hcx, hCx, hr', hxs'⟩ := hf2 htb
         have hnw := (Cursor.next_spec hCw).1 ht
-        refine ⟨(c.advance st.b).2, by rw [e3]; exact hr', hnw.1, ?_, Or.inr ⟨e4, x, hcx, ?_⟩⟩
+        refine ⟨(c.advance st.b).2, by rw [e3]; exact hr', by rw [e1]; exact hdb, hnw.1, ?_, Or.inr ⟨e4, x, hcx, ?_⟩⟩
         · rw [hnw.2.1, e1, e2, hxs', hxs]
         · rw [← hsame.2 htb]; exact hCx
     · -- later calls: `Next` on the child
@@ -357,16 +358,16 @@ theorem range_simulation : Simulation (Range.ops o) (RangeRel o) where
         have htb : (C.advance (v + 1)).1 = true := by rw [← hnb]; exact ht
         obtain ⟨e1, e2, e3, e4, x, hcx, hCx, hr', hxs'⟩ := hf2 htb
         have hnw := (Cursor.next_spec hCw).1 ht
-        refine ⟨c.next.2, by rw [e3]; exact hr', hnw.1, ?_, Or.inr ⟨e4, x, hcx, ?_⟩⟩
+        refine ⟨c.next.2, by rw [e3]; exact hr', by rw [e1]; exact hdb, hnw.1, ?_, Or.inr ⟨e4, x, hcx, ?_⟩⟩
         · rw [hnw.2.1, e1, e2, hxs', hxs]
         · rw [hns ht]; exact hCx
-  advance k st C h := by
-    obtain ⟨c, hr, hCw, hxs, hcase⟩ := h
+  advance k st C h hk := by
+    obtain ⟨c, hr, hdb, hCw, hxs, hcase⟩ := h
     have hcw := hr.wf
     have hCA := Cursor.advance_spec hCw k
     rcases hcase with ⟨hst, hcn, hCn⟩ | ⟨hst, v, hcv, hCv⟩
     · -- not started: `Advance(begin)` then `Advance(key)` on the child
-      obtain ⟨it1, h1, h2⟩ := hr.advance st.b
+      obtain ⟨it1, h1, h2⟩ := hr.advance st.b hdb
       have hcA := Cursor.advance_spec hcw st.b
       cases hb : (c.advance st.b).1 with
       | false =>
@@ -386,7 +387,7 @@ theorem range_simulation : Simulation (Range.ops o) (RangeRel o) where
       | true =>
         obtain ⟨hc1w, hc1xs, _, x1, hx1, hx1m, hbx1, _, hx1l⟩ := hcA.1 hb
         have hr1 := h2 hb
-        obtain ⟨it2, h3, h4⟩ := hr1.advance k
+        obtain ⟨it2, h3, h4⟩ := hr1.advance k hk
         have hc2A := Cursor.advance_spec hc1w k
         -- the child ends on its least element `≥ max b k`
         have hfin := range_finish o (st := st) (C := C) (c := c) (c' := ((c.advance st.b).2.advance k).2)
@@ -441,11 +442,11 @@ theorem range_simulation : Simulation (Range.ops o) (RangeRel o) where
           have htm : (C.advance (max st.b k)).1 = true := by rw [hbool]; exact ht
           obtain ⟨e1, e2, e3, e4, x, hcx, hCx, hr', hxs'⟩ := hf2 htm
           obtain ⟨hw', hxs'', _⟩ := hCA.1 ht
-          refine ⟨((c.advance st.b).2.advance k).2, by rw [e3]; exact hr', hw', ?_, Or.inr ⟨e4, x, hcx, ?_⟩⟩
+          refine ⟨((c.advance st.b).2.advance k).2, by rw [e3]; exact hr', by rw [e1]; exact hdb, hw', ?_, Or.inr ⟨e4, x, hcx, ?_⟩⟩
           · rw [hxs'', e1, e2, hxs', hxs]
           · rw [← hcur htm]; exact hCx
     · -- started: `Advance(key)` on the child
-      obtain ⟨it', h1, h2⟩ := hr.advance k
+      obtain ⟨it', h1, h2⟩ := hr.advance k hk
       have hcA := Cursor.advance_spec hcw k
       have hvM : v ∈ C.xs := Cursor.cur_mem hCv
       have hvr : st.b ≤ v ∧ v < st.e := by rw [hxs, mem_rangeList] at hvM; exact hvM.2
@@ -462,7 +463,7 @@ theorem range_simulation : Simulation (Range.ops o) (RangeRel o) where
           rw [h1, hCs]; simp [Range.finish, hval, hvr.2]
         · intro _
           rw [hCs]
-          exact ⟨c, hr', hCw, hxs, Or.inr ⟨rfl, v, hcv, hCv⟩⟩
+          exact ⟨c, hr', hdb, hCw, hxs, Or.inr ⟨rfl, v, hcv, hCv⟩⟩
       · have hfin := range_finish o (st := st) (C := C) (c := c) (c' := (c.advance k).2) (it' := it')
           (t := k) (c.advance k).1 hCw hxs hcw (by omega)
           (by intro w hw; rw [hCv] at hw; simp at hw; omega)
@@ -481,13 +482,13 @@ theorem range_simulation : Simulation (Range.ops o) (RangeRel o) where
         · intro ht
           obtain ⟨e1, e2, e3, e4, x, hcx, hCx, hr', hxs'⟩ := hf2 ht
           obtain ⟨hw', hxs'', _⟩ := hCA.1 ht
-          refine ⟨(c.advance k).2, by rw [e3]; exact hr', hw', ?_, Or.inr ⟨e4, x, hcx, hCx⟩⟩
+          refine ⟨(c.advance k).2, by rw [e3]; exact hr', by rw [e1]; exact hdb, hw', ?_, Or.inr ⟨e4, x, hcx, hCx⟩⟩
           rw [hxs'', e1, e2, hxs', hxs]
 
 /-- `keyRange` over a child that refines the cursor of `xs` refines the cursor of `xs ∩ [b, e)`. -/
-theorem range_refines {it : σ} {xs : List Nat} (b e : Nat) (h : Refines o it xs) :
+theorem range_refines {it : σ} {xs : List Nat} (b e : Nat) (h : Refines o it xs) (hb : o.dom b) :
     Refines (Range.ops o) ⟨it, b, e, false⟩ (rangeList b e xs) := by
-  refine ⟨RangeRel o, range_simulation o, start xs, h, ?_, rfl, Or.inl ⟨rfl, rfl, rfl⟩⟩
+  refine ⟨RangeRel o, range_simulation o, start xs, h, hb, ?_, rfl, Or.inl ⟨rfl, rfl, rfl⟩⟩
   have := h.wf
   exact rangeList_sorted this
 
